@@ -1,6 +1,7 @@
 import Feox.Props.C11
 import Feox.Fmt.Expiry
 import Feox.Fmt.Newest
+import Feox.Fmt.Ttl
 /-!
 # C11 (continued) — the absolute expiry instant survives flush and restart, on the bytes
 
